@@ -404,6 +404,13 @@ def gen_vcf(draw, *, nsamples=(1, 3), ncontigs=(1, 3), nrecords=(1, 12), ploidy_
                             t["mixed_separators"] = True
                     t["alleles"] = tuple(alleles)
                     t["gt_phased_flag"] = phased_flag
+                elif stale_ps and draw(st.integers(0, 2)) == 0:
+                    # a record without GT may still carry left-over phase tags (e.g. after an upstream step removed GT)
+                    call["PS"] = str(draw(st.integers(1, 999)))
+                    any_ps = True
+                    if use_pq and draw(st.booleans()):
+                        call["PQ"] = "10"
+                        any_pq = True
                 for d in rec_extra:
                     call[d[0]] = _format_value(draw, d, nalts, ploidy)
                 calls.append(call)
